@@ -76,6 +76,11 @@ def aolStep (tbl : AddrTable) (d : AolD) : List String → Option (AolD × Strin
       let o ← Bytes.ofHex o; let t ← Bytes.ofHex t; let w ← Bytes.ofHex w
       pure (d, outStr (fun (x : Writer) => "ok moniker=" ++ showBytes x.moniker ++ " desc=" ++ showBytes x.description ++
         " ts=" ++ toString x.nanoTimestamp) (queryWriter (codecOf tbl) d.st o t w))
+  | ["mon.c01.acked", o, t, n, k, v, ts, w] => do
+      let o ← Bytes.ofHex o; let t ← Bytes.ofHex t; let n ← n.toNat?
+      let k ← Bytes.ofHex k; let v ← Bytes.ofHex v; let ts ← ts.toInt?; let w ← Bytes.ofHex w
+      let want : Record := { key := k, value := v, nanoTimestamp := ts, writerAddress := w }
+      pure (d, if queryRecord (codecOf tbl) d.st o t n = .ok want then "pass" else "fail")
   | "aol.q" :: "topics" :: o :: page => do
       let o ← Bytes.ofHex o; let p ← parsePage page
       pure (d, outStr (fun (x : List Bytes × Paginate.PageResponse) => "ok items=" ++ showList x.1 ++ " " ++ pageAns x.2)
